@@ -31,6 +31,9 @@ def remove_unused_self_cls(source: str) -> str:
             arguments = funcdef.args.posonlyargs + funcdef.args.args
             if not arguments:
                 continue
+            if funcdef.name == "__new__":
+                # Always called with the class as first argument, whatever its decorators say
+                continue
             first_arg_name = arguments[0].arg
 
             first_arg_accesses = set()
